@@ -1121,62 +1121,447 @@ def period_stream(ctx, n_cases, cap):
             ctx.fail('C10:cyl:not-periodic', 'rotation by %d x period %g changes an entry by %r (dt %r)' % (k, cfg['period'], diff, dt), desc)
 
 
+# ----------------------------------------------------------------------------------------------- emission_function
+def emission_stream(ctx, n_cases):
+    """`emission_function` (cpdef; used when the emitter is combined with another volume integrator) at points inside the
+    grid.  K: model `emit`; S: exactly one unit in the bin of the point's cell, nothing for an inactive cell."""
+    from raysect.optical import Spectrum, Point3D, Vector3D
+    rng = ctx.rng
+    lines, metas = [], []
+    cfg = None
+    for it in range(n_cases):
+        edge = it % 4 == 3
+        if cfg is None or it % 3 == 0:
+            cfg = make_cart(rng, edge) if rng.random() < 0.45 else make_cyl(rng, edge)
+        geo, sh, st = cfg['geo'], cfg['shape'], cfg['steps']
+        if geo == 'cart':
+            p = [pick(rng, 0.0, sh[a] * st[a] * (1 - 1e-9) if not edge else sh[a] * st[a] - 0.125 * st[a], edge, 0.125 * st[a]) for a in range(3)]
+        else:
+            rmax = cfg['rmin'] + sh[0] * st[0]
+            r = rng.uniform(cfg['rmin'] * (1 + 1e-9), rmax * (1 - 1e-9))
+            ph = rng.choice([0.0, math.pi / 2, math.pi, -math.pi / 2, rng.uniform(-math.pi, math.pi), rng.uniform(-math.pi, math.pi)])
+            p = [r * math.cos(ph), r * math.sin(ph), pick(rng, 0.0, sh[2] * st[2] * (1 - 1e-9) if not edge else sh[2] * st[2] - 0.125 * st[2], edge, 0.125 * st[2])]
+        if rng.random() < 0.05:
+            p[2] = sh[2] * st[2] * rng.choice([1.0, 1.5])          # outside: IndexError on both sides
+        mat = material(cfg)
+        world, ray, eye = _scene()
+        sp = Spectrum(500.0, 501.0, mat.bins)
+        stt, _ = call(mat.emission_function, Point3D(*p), Vector3D(0, 0, 1), sp, world, ray, None, eye, eye)
+        ent = [float(v) for v in sp.samples] if stt == 'ok' else None
+        vm = np.asarray(mat.voxel_map)
+        head = '%s %d %d %d %d ' % ('ecart' if geo == 'cart' else 'ecyl', sh[0], sh[1], sh[2], mat.bins)
+        nums = list(st) + ([] if geo == 'cart' else [cfg['rmin'], cfg['period']]) + p
+        lines.append(head + fs(nums) + ' ' + ' '.join(str(int(v)) for v in vm.ravel()))
+        desc = dict(kind='emission', geo=geo, shape=sh, steps=st, rmin=cfg.get('rmin'), period=cfg.get('period'), voxel_map=vm.ravel().tolist(), point=p)
+        metas.append((stt, ent, desc))
+        ctx.count('K:emission:%s' % geo)
+        # S
+        c = (cart_cell if geo == 'cart' else cyl_cell)(cfg, p)
+        inside = all(0 <= c[a] < sh[a] for a in range(3))
+        if not inside:
+            continue
+        # guard band: point within 1e-9 cell of a face -> which side is a matter of rounding, unless the coordinates are exact
+        if not edge and _near_face(cfg, p):
+            ctx.count('S:emission-guard-band-skipped')
+            continue
+        if stt != 'ok':
+            ctx.fail('C10:%s:emission-raised' % geo, 'emission_function raised %s at a point inside the grid' % stt, desc)
+            continue
+        want = [0.0] * mat.bins
+        if int(vm[c]) >= 0:
+            want[int(vm[c])] = 1.0
+        ctx.case(key=('emission', geo, sh, tuple(f2b(v) for v in p)) if any(want) else None)
+        if edge and geo == 'cyl':
+            continue               # dyadic cylindrical points can sit on r / phi faces, where sqrt/atan2 rounding decides: K only
+        if ent != want:
+            ctx.fail('C10:%s:emission-function' % geo, 'point %r lies in cell %r (source %d) but emission_function changed the spectrum by %r'
+                     % (p, c, int(vm[c]), ent), desc)
+    outs = ctx.driver(lines)
+    for (stt, ent, desc), o in zip(metas, outs):
+        mst, ment = parse_model(o)
+        ctx.traces += 1
+        if mst != stt or (mst == 'ok' and ment != ent):
+            ctx.disagreements += 1
+            ctx.broke('correspondence', 'C10 emission_function (%s)' % desc['geo'], dict(model=(mst, ment), implementation=(stt, ent), input=desc))
+
+
+def _near_face(cfg, p):
+    st = cfg['steps']
+    if cfg['geo'] == 'cart':
+        coords = [p[a] / st[a] for a in range(3)]
+    else:
+        r = math.hypot(p[0], p[1])
+        coords = [(r - cfg['rmin']) / st[0], p[2] / st[2]]
+        if cfg['shape'][1] > 1:
+            coords.append((math.degrees(math.atan2(p[1], p[0])) % cfg['period']) / st[1])
+    return any(abs(v - round(v)) < 1e-9 for v in coords)
+
+
+# ----------------------------------------------------------------------------------------------- setter histories
+def expected_map_from_mask(mask):
+    """True cells numbered 0..k-1 in C order, False cells -1 (written with cumsum, not with the code's masked assignment)"""
+    flat = mask.ravel().astype(bool)
+    return np.where(flat, np.cumsum(flat) - 1, -1).astype(np.int32).reshape(mask.shape)
+
+
+def rnd_map_op(rng, shape):
+    """('mask', array, expected map) or ('voxel_map', array, expected map)"""
+    n = shape[0] * shape[1] * shape[2]
+    if rng.random() < 0.5:
+        p = rng.choice([0.3, 0.6, 0.9])
+        m = np.array([rng.random() < p for _ in range(n)], dtype=bool).reshape(shape)
+        if not m.any():
+            m.flat[rng.randrange(n)] = True
+        return 'mask', m, expected_map_from_mask(m)
+    nsrc = rng.randint(1, max(1, min(6, n)))
+    v = np.array([(-1 if rng.random() < 0.25 else rng.randrange(nsrc)) for _ in range(n)], dtype=np.int32).reshape(shape)
+    if v.max() < 0:
+        v.flat[rng.randrange(n)] = 0
+    return 'voxel_map', v, v.copy()
+
+
+def check_attributes(ctx, obj, want, what, desc):
+    vm = np.asarray(obj.voxel_map)
+    ok = vm.shape == want.shape and (vm == want).all() and obj.bins == int(want.max()) + 1 and (np.asarray(obj.mask) == (want > -1)).all()
+    if not ok:
+        ctx.fail('C10:%s:attributes-after-setter' % what, 'voxel_map %r / bins %r / mask do not reflect the assigned value (expected map %r)'
+                 % (vm.ravel().tolist(), obj.bins, want.ravel().tolist()), desc)
+    return ok
+
+
+def _mat_list(tr):
+    return [[tr[i, j] for j in range(4)] for i in range(4)] if tr is not None else None
+
+
+def replay_setter(ctx, r):
+    """re-run a recorded setter history (emitter or object) against a freshly constructed object in the final configuration"""
+    from raysect.optical import World, Ray, Point3D, Vector3D, Spectrum, AffineMatrix3D
+    sh = tuple(r['shape'])
+    cfg = cfg_from_desc(dict(r, voxel_map=r['initial_map']))
+    want = np.array(r['voxel_map'], dtype=np.int32).reshape(sh)
+    cfgf = cfg_from_desc(r)
+    if r['kind'] == 'setter-emitter':
+        mat = material(cfg)
+        for op, val in zip(r['ops'], r['op_values']):
+            setattr(mat, op, np.array(val).reshape(sh).astype(bool if op == 'mask' else np.int32))
+        check_attributes(ctx, mat, want, '%s:emitter' % r['geo'], r)
+        world, ray, eye = _scene()
+        sp = Spectrum(500.0, 501.0, mat.bins)
+        seg = r['segment']
+        st, _ = call(integrator(cfg, r['step'], 2).integrate, sp, world, ray, None, mat, Point3D(*seg[:3]), Point3D(*seg[3:]), eye, eye)
+        got = (st, [float(v) for v in sp.samples] if st == 'ok' else None)
+        ref = impl_integrate(cfgf, r['step'], 2, seg, None)
+    else:
+        w1, w2 = World(), World()
+        tr0 = AffineMatrix3D(r['initial_transform']) if r.get('initial_transform') else None
+        trf = AffineMatrix3D(r['transform']) if r.get('transform') else None
+        rt, rec, bound, _, _ = build_rt(ctx, cfg, r['initial_step'], tr0, w1)
+        for op, val in zip(r['ops'], r['op_values']):
+            if op in ('mask', 'voxel_map'):
+                setattr(rt, op, np.array(val).reshape(sh).astype(bool if op == 'mask' else np.int32))
+            elif op == 'step':
+                rt.step = val
+            else:
+                rt.transform = AffineMatrix3D(val) if val else AffineMatrix3D()
+        check_attributes(ctx, rt, want, '%s:object' % r['geo'], r)
+        rt2, rec2, bound2, _, _ = build_rt(ctx, cfgf, r['step'], trf, w2)
+        scratch = []
+        m1 = trace_ray(ctx, dict(cfgf), rt, rec, trf, bound, r['origin'], r['direction'], 'history', r['step'], w1, scratch)
+        m2 = trace_ray(ctx, cfgf, rt2, rec2, trf, bound2, r['origin'], r['direction'], 'fresh', r['step'], w2, scratch)
+        got, ref = (m1 and m1['ent']), (m2 and m2['ent'])
+    ctx.case(key=('replay-setter', str(r['ops'])))
+    ctx.log('replay: after the history %r: %r' % (r['ops'], got))
+    ctx.log('replay: fresh object            : %r' % (ref,))
+    if got != ref:
+        lastmap = [x for x in r['ops'] if x in ('mask', 'voxel_map')]
+        ctx.fail('C10:%s:%s:stale-after-set-%s' % (r['geo'], 'emitter' if r['kind'] == 'setter-emitter' else 'object', (lastmap or r['ops'])[-1]),
+                 'history %r gives %r, a fresh object in the final configuration %r' % (r['ops'], got, ref), r)
+
+
+def setter_stream(ctx, n_cases, cap):
+    """histories: construct -> (integrate/trace) -> set mask / voxel_map / step / transform in random order -> integrate/trace.
+    S: identical to a freshly constructed object in the final configuration; K: the model fed the final map."""
+    from raysect.optical import World, Ray, Point3D, Vector3D, Spectrum
+    from cherab.tools.raytransfer import CartesianRayTransferEmitter, CylindricalRayTransferEmitter
+    rng = ctx.rng
+    lines, metas = [], []
+    e_lines, e_metas = [], []
+    for it in range(n_cases):
+        cfg = make_cart(rng) if rng.random() < 0.5 else make_cyl(rng)
+        geo, sh = cfg['geo'], cfg['shape']
+        # ---------------- A: the emitter material itself -------------------------------------------------------
+        kw = dict(voxel_map=cfg['vmap'], mask=cfg['mask'])
+        if geo == 'cart':
+            mat = CartesianRayTransferEmitter(sh, cfg['steps'], **kw)
+        else:
+            mat = CylindricalRayTransferEmitter(sh, cfg['steps'], rmin=cfg['rmin'], **kw)
+        cls, seg = (seg_cart if geo == 'cart' else seg_cyl)(rng, cfg, False)
+        L = math.dist(seg[:3], seg[3:])
+        step = rnd_step(rng, cfg, max(L, 1e-6), False, cap)
+        world, ray, eye = _scene()
+        if rng.random() < 0.6:           # use the object before changing it
+            call(integrator(cfg, step, 2).integrate, Spectrum(500.0, 501.0, mat.bins), world, ray, None, mat, Point3D(*seg[:3]), Point3D(*seg[3:]), eye, eye)
+        ops, opvals = [], []
+        init_map = np.asarray(mat.voxel_map).ravel().tolist()
+        want = np.asarray(mat.voxel_map).copy()
+        for _ in range(rng.randint(1, 3)):
+            op, val, want = rnd_map_op(rng, sh)
+            setattr(mat, op, val)
+            ops.append(op)
+            opvals.append(val.ravel().astype(int).tolist())
+        desc = dict(kind='setter-emitter', geo=geo, shape=sh, steps=cfg['steps'], rmin=cfg.get('rmin'), period=cfg.get('period'),
+                    initial=cfg['kind'], initial_map=init_map, ops=ops, op_values=opvals, voxel_map=want.ravel().tolist(), step=step,
+                    min_samples=2, segment=seg)
+        ctx.count('H:emitter:%s:last=%s' % (geo, ops[-1]))
+        if check_attributes(ctx, mat, want, '%s:emitter' % geo, desc):
+            cfgf = dict(cfg, vmap=want, mask=None, kind='merge')
+            cfgf.pop('mat', None)
+            cfgf.pop('mat_id', None)
+            fresh = material(cfgf)
+            sp = Spectrum(500.0, 501.0, mat.bins)
+            st, r = call(integrator(cfg, step, 2).integrate, sp, world, ray, None, mat, Point3D(*seg[:3]), Point3D(*seg[3:]), eye, eye)
+            got = (st, [float(v) for v in sp.samples] if st == 'ok' else None)
+            stf, entf = impl_integrate(cfgf, step, 2, seg, None)
+            ctx.case(key=('setter-emitter', geo, sh, tuple(ops), tuple(f2b(v) for v in seg)) if entf and any(entf) else None)
+            if got[0] != stf or (stf == 'ok' and got[1] != entf):
+                ctx.fail('C10:%s:emitter:stale-after-set-%s' % (geo, ops[-1]),
+                         'after %s the emitter integrates %r, a fresh emitter with the same voxel_map %r' % (ops, got, (stf, entf)), desc)
+            lines.append(model_line(cfgf, step, 2, seg, [0.0] * mat.bins, want, mat.bins))
+            metas.append((got, desc, geo))
+        # ---------------- B: RayTransferBox / RayTransferCylinder -----------------------------------------------
+        cfg2 = make_cart(rng) if geo == 'cart' else make_cyl(rng)
+        world1 = World()
+        tr0 = rnd_transform(rng)
+        span = max(cfg2['shape'][a] * cfg2['steps'][a] for a in (0, 2)) if cfg2['geo'] == 'cart' else \
+            max(2 * (cfg2['rmin'] + cfg2['shape'][0] * cfg2['steps'][0]), cfg2['shape'][2] * cfg2['steps'][2])
+        step0 = None if rng.random() < 0.5 else rnd_step(rng, cfg2, span, False, cap)
+        rt, rec, bound, gl, ge = build_rt(ctx, cfg2, step0, tr0, world1)
+        o, d, rcls = gen_ray(rng, cfg2, bound, False)
+        if rng.random() < 0.5:
+            po, vd = Point3D(*o), Vector3D(*d)
+            if tr0 is not None:
+                po, vd = po.transform(tr0), vd.transform(tr0)
+            call(Ray(origin=po, direction=vd, min_wavelength=500.0, max_wavelength=501.0, bins=rt.bins).trace, world1)
+        want = np.asarray(rt.voxel_map).copy()
+        init_map2 = want.ravel().tolist()
+        step_f, tr_f = rt.step, tr0
+        step_init = rt.step
+        ops, opvals = [], []
+        kinds = ['map', 'map', 'step', 'transform']
+        rng.shuffle(kinds)
+        for k in kinds[:rng.randint(1, 4)]:
+            if k == 'map':
+                op, val, want = rnd_map_op(rng, cfg2['shape'])
+                setattr(rt, op, val)
+                ops.append(op)
+                opvals.append(val.ravel().astype(int).tolist())
+            elif k == 'step':
+                step_f = rnd_step(rng, cfg2, span, False, cap)
+                rt.step = step_f
+                ops.append('step')
+                opvals.append(step_f)
+            else:
+                tr_f = rnd_transform(rng)
+                from raysect.optical import AffineMatrix3D
+                rt.transform = tr_f if tr_f is not None else AffineMatrix3D()
+                ops.append('transform')
+                opvals.append(_mat_list(tr_f))
+        desc2 = dict(kind='setter-object', geo=cfg2['geo'], shape=cfg2['shape'], steps=cfg2['steps'], rmin=cfg2.get('rmin'), period=cfg2.get('period'),
+                     initial=cfg2['kind'], initial_map=init_map2, initial_step=step_init, initial_transform=_mat_list(tr0), ops=ops,
+                     op_values=opvals, voxel_map=want.ravel().tolist(), step=step_f, origin=o, direction=d, transform=_mat_list(tr_f))
+        ctx.count('H:object:%s:%s' % (cfg2['geo'], '+'.join(sorted(set(ops)))))
+        if not check_attributes(ctx, rt, want, '%s:object' % cfg2['geo'], desc2):
+            continue
+        if rt.step != step_f:
+            ctx.fail('C10:%s:object:step-setter' % cfg2['geo'], 'step reads %r after assigning %r' % (rt.step, step_f), desc2)
+        cfg2f = dict(cfg2, vmap=want, mask=None, kind='merge')
+        cfg2f.pop('mat', None)
+        cfg2f.pop('mat_id', None)
+        world2 = World()
+        rt2, rec2, bound2, _, _ = build_rt(ctx, cfg2f, step_f, tr_f, world2)
+        m1 = trace_ray(ctx, dict(cfg2f), rt, rec, tr_f, bound, o, d, 'history', step_f, world1, e_lines)
+        scratch = []
+        m2 = trace_ray(ctx, cfg2f, rt2, rec2, tr_f, bound2, o, d, 'fresh', step_f, world2, scratch)
+        if m1 is None or m2 is None:
+            continue
+        ctx.case(key=('setter-object', cfg2['geo'], cfg2['shape'], tuple(ops), tuple(f2b(v) for v in o + d)) if any(m2['ent']) else None)
+        if m1['ent'] != m2['ent']:
+            lastmap = [x for x in ops if x in ('mask', 'voxel_map')]
+            ctx.fail('C10:%s:object:stale-after-set-%s' % (cfg2['geo'], lastmap[-1] if lastmap else ops[-1]),
+                     'after %s the object traces %r, a freshly constructed object in the same configuration %r' % (ops, m1['ent'], m2['ent']), desc2)
+        m1['desc'] = desc2
+        m1['vm'] = want
+        e_metas.append(m1)
+    outs = ctx.driver(lines) if lines else []
+    for (got, desc, geo), o_ in zip(metas, outs):
+        mst, ment = parse_model(o_)
+        ctx.traces += 1
+        if mst != got[0] or (mst == 'ok' and not close(ment, got[1], TOL, 1e-300)):
+            ctx.disagreements += 1
+            ctx.broke('correspondence', 'C10 setter history (%s emitter): model with the final map vs implementation' % geo,
+                      dict(model=(mst, ment), implementation=got, input=desc))
+    outs = ctx.driver(e_lines) if e_lines else []
+    for m in e_metas:
+        nb = len(m['ent'])
+        tot = [0.0] * nb
+        okm = True
+        for i in range(len(m['segs'])):
+            mst, ment = parse_model(outs[m['first'] + i])
+            if mst != 'ok' or len(ment) != nb:
+                okm = False
+                break
+            tot = [a + b for a, b in zip(tot, ment)]
+        ctx.traces += 1
+        if not okm or not close(tot, m['ent'], TOL, 1e-300):
+            ctx.disagreements += 1
+            ctx.broke('correspondence', 'C10 setter history (%s object): model with the final map over recorded segments vs traced spectrum' % m['desc']['geo'],
+                      dict(model=tot if okm else 'IndexError', implementation=m['ent'], input=m['desc']))
+
+
+# ----------------------------------------------------------------------------------------------- pipelines
+def _observers():
+    """deterministic 1D / 2D observers (python subclasses of raysect's abstract observers): pixel -> one fixed ray"""
+    if 'Line1D' in _CTX:
+        return _CTX['Line1D'], _CTX['Grid2D']
+    from raysect.optical import Point3D, Vector3D
+    from raysect.optical.observer.base import Observer1D, Observer2D
+    from raysect.optical.observer import FullFrameSampler1D, FullFrameSampler2D
+
+    class Line1D(Observer1D):
+        def __init__(self, rays, sens, pipelines, **kw):
+            self.rays_, self.sens_ = rays, sens
+            super().__init__(len(rays), FullFrameSampler1D(), pipelines, **kw)
+
+        def _generate_rays(self, pixel, template, ray_count):
+            o, d = self.rays_[pixel]
+            return [(template.copy(Point3D(*o), Vector3D(*d)), 1.0) for _ in range(ray_count)]
+
+        def _pixel_sensitivity(self, pixel):
+            return self.sens_
+
+    class Grid2D(Observer2D):
+        def __init__(self, rays, sens, pipelines, **kw):
+            self.rays_, self.sens_ = rays, sens            # rays[x][y]
+            super().__init__((len(rays), len(rays[0])), FullFrameSampler2D(), pipelines, **kw)
+
+        def _generate_rays(self, x, y, template, ray_count):
+            o, d = self.rays_[x][y]
+            return [(template.copy(Point3D(*o), Vector3D(*d)), 1.0) for _ in range(ray_count)]
+
+        def _pixel_sensitivity(self, x, y):
+            return self.sens_
+
+    _CTX['Line1D'], _CTX['Grid2D'] = Line1D, Grid2D
+    return Line1D, Grid2D
+
+
 def pipeline_stream(ctx, n_cases):
-    """K(c)/S: the ray-transfer pipelines store the traced spectrum (x sensitivity for 'power'), averaged over samples"""
+    """K(c)/S: histories of 2-3 consecutive observe() calls of the SAME observer and pipeline (0D SightLine, 1D, 2D with fixed
+    rays per pixel), interleaved with scene changes (mask, step, transform of the ray-transfer object, pixel_samples).
+    Oracle for every observe: matrix[pixel] = spectrum traced along the pixel's ray (x sensitivity for 'power'), which is
+    also what a fresh pipeline returns."""
     from raysect.optical import World, Ray, Point3D, Vector3D, translate, rotate_basis
-    from raysect.optical.observer import SightLine, FibreOptic, PinholeCamera
+    from raysect.optical.observer import SightLine
     from raysect.core.workflow import SerialEngine
-    from cherab.tools.raytransfer import RayTransferBox, RayTransferPipeline0D, RayTransferPipeline2D
+    from cherab.tools.raytransfer import RayTransferBox, RayTransferCylinder, RayTransferPipeline0D, RayTransferPipeline1D, RayTransferPipeline2D
+    Line1D, Grid2D = _observers()
     rng = ctx.rng
     for it in range(n_cases):
         world = World()
-        cfg = make_cart(rng)
+        cfg = make_cart(rng) if rng.random() < 0.6 else make_cyl(rng)
         sh = cfg['shape']
-        ext = [sh[a] * cfg['steps'][a] for a in range(3)]
-        rt = RayTransferBox(ext[0], ext[1], ext[2], sh[0], sh[1], sh[2], voxel_map=cfg['vmap'], mask=cfg['mask'], parent=world)
-        tgt = [rng.uniform(0.2, 0.8) * e for e in ext]
-        d = [rng.gauss(0, 1) for _ in range(3)]
-        nd = math.sqrt(sum(c * c for c in d))
-        d = [c / nd for c in d]
-        o = [tgt[a] - 3 * max(ext) * d[a] for a in range(3)]
-        ray = Ray(origin=Point3D(*o), direction=Vector3D(*d), min_wavelength=500.0, max_wavelength=501.0, bins=rt.bins)
-        ref = np.array(ray.trace(world).samples)
-        desc = dict(kind='pipeline', shape=sh, steps=cfg['steps'], origin=o, direction=d, voxel_map=np.asarray(rt.voxel_map).ravel().tolist())
-        for kind in ('radiance', 'power'):
-            sens = rng.choice([1.0, 2.5, 0.125])
+        if cfg['geo'] == 'cart':
+            ext = [sh[a] * cfg['steps'][a] for a in range(3)]
+            rt = RayTransferBox(ext[0], ext[1], ext[2], sh[0], sh[1], sh[2], voxel_map=cfg['vmap'], mask=cfg['mask'], parent=world)
+            centre = [0.5 * e for e in ext]
+        else:
+            rout, h = cfg['rmin'] + sh[0] * cfg['steps'][0], sh[2] * cfg['steps'][2]
+            rt = RayTransferCylinder(rout, h, sh[0], sh[2], radius_inner=cfg['rmin'], n_polar=sh[1], period=cfg['period'],
+                                     voxel_map=cfg['vmap'], mask=cfg['mask'], parent=world)
+            ext = [2 * rout, 2 * rout, h]
+            centre = [0.0, 0.0, 0.5 * h]
+        size = max(ext)
+
+        def a_ray():
+            tgt = [centre[a] + rng.uniform(-0.3, 0.3) * ext[a] for a in range(3)]
+            d = [rng.gauss(0, 1) for _ in range(3)]
+            nd = math.sqrt(sum(c * c for c in d))
+            d = [c / nd for c in d]
+            return [tgt[a] - 3 * size * d[a] for a in range(3)], d
+        dim = ('0D', '1D', '2D')[it % 3]
+        kind = rng.choice(['radiance', 'power'])
+        sens = rng.choice([1.0, 2.5, 0.125])
+        common = dict(parent=world, min_wavelength=500.0, max_wavelength=501.0, spectral_bins=rt.bins, pixel_samples=rng.choice([1, 3]))
+        if dim == '0D':
+            o, d = a_ray()
+            rays = [(o, d)]
             pipe = RayTransferPipeline0D(kind=kind)
             up = Vector3D(0, 0, 1) if abs(d[2]) < 0.9 else Vector3D(1, 0, 0)
-            sl = SightLine(pipelines=[pipe], parent=world, transform=translate(*o) * rotate_basis(Vector3D(*d), up),
-                           min_wavelength=500.0, max_wavelength=501.0, spectral_bins=rt.bins, pixel_samples=rng.choice([1, 3]),
-                           sensitivity=sens)
-            sl.render_engine = SerialEngine()
-            sl.quiet = True
-            sl.spectral_rays = 1
-            st, r = call(sl.observe)
-            sl.parent = None
-            ctx.count('pipeline0D:' + kind)
-            ctx.case(key=('pipe', kind, tuple(f2b(v) for v in o)))
+            obs = SightLine(pipelines=[pipe], transform=translate(*o) * rotate_basis(Vector3D(*d), up), sensitivity=sens, **common)
+            fresh = lambda: RayTransferPipeline0D(kind=kind)
+        elif dim == '1D':
+            rays = [a_ray() for _ in range(rng.randint(1, 4))]
+            pipe = RayTransferPipeline1D(kind=kind)
+            obs = Line1D(rays, sens, [pipe], **common)
+            fresh = lambda: RayTransferPipeline1D(kind=kind)
+        else:
+            nx, ny = rng.randint(1, 3), rng.randint(1, 2)
+            grid = [[a_ray() for _ in range(ny)] for _ in range(nx)]
+            rays = [grid[x][y] for x in range(nx) for y in range(ny)]
+            pipe = RayTransferPipeline2D(kind=kind)
+            obs = Grid2D(grid, sens, [pipe], **common)
+            fresh = lambda: RayTransferPipeline2D(kind=kind)
+        obs.render_engine = SerialEngine()
+        obs.quiet = True
+        obs.spectral_rays = 1
+        history = []
+        for k in range(rng.randint(2, 3)):
+            if k > 0:
+                # change of the scene / of the observer between observes
+                ch = rng.choice(['none', 'mask', 'step', 'move', 'pixel_samples'])
+                if ch == 'mask':
+                    op, val, _ = rnd_map_op(rng, sh)
+                    setattr(rt, op, val)
+                    obs.spectral_bins = rt.bins
+                elif ch == 'step':
+                    rt.step = rt.step * rng.choice([0.5, 2.0, 3.0])
+                elif ch == 'move':
+                    rt.transform = translate(*[rng.uniform(-0.2, 0.2) * e for e in ext])
+                elif ch == 'pixel_samples':
+                    obs.pixel_samples = rng.choice([1, 2, 5])
+                history.append(ch)
+            history.append('observe')
+            st, r = call(obs.observe)
+            desc = dict(kind='pipeline', dim=dim, pipeline_kind=kind, sensitivity=sens, geo=cfg['geo'], shape=sh, steps=cfg['steps'],
+                        history=list(history), rays=rays, voxel_map=np.asarray(rt.voxel_map).ravel().tolist())
+            ctx.count('pipeline%s:%s:observe#%d' % (dim, kind, k + 1))
+            tag = 'first-observe' if k == 0 else 'repeated-observe'
             if st != 'ok':
-                ctx.fail('C10:pipeline0D:raised', 'observe raised %s: %s' % (st, r), desc)
-                continue
-            want = ref * (sens if kind == 'power' else 1.0)
-            if pipe.matrix.shape != (rt.bins,) or not np.allclose(pipe.matrix, want, rtol=1e-9, atol=1e-12):
-                ctx.fail('C10:pipeline0D:%s' % kind, 'matrix %r != traced spectrum %r (sensitivity %r)' % (pipe.matrix.tolist(), want.tolist(), sens), desc)
-        if it % 3 == 0:
-            pipe = RayTransferPipeline2D(kind='radiance')
-            cam = PinholeCamera((3, 2), pipelines=[pipe], parent=world, transform=translate(*o) * rotate_basis(Vector3D(*d), up), fov=20)
-            cam.min_wavelength, cam.max_wavelength, cam.spectral_bins, cam.pixel_samples = 500.0, 501.0, rt.bins, 1
-            cam.render_engine = SerialEngine()
-            cam.quiet = True
-            cam.spectral_rays = 1
-            st, r = call(cam.observe)
-            cam.parent = None
-            ctx.count('pipeline2D')
-            if st != 'ok':
-                ctx.fail('C10:pipeline2D:raised', 'observe raised %s: %s' % (st, r), desc)
-            elif pipe.matrix.shape != (3, 2, rt.bins) or not np.all(np.isfinite(pipe.matrix)) or pipe.matrix.min() < 0 \
-                    or pipe.matrix.sum(axis=2).max() > math.sqrt(sum(e * e for e in ext)) * (1 + 1e-9):
-                ctx.fail('C10:pipeline2D:matrix', 'matrix rows are not chord lengths: %r' % pipe.matrix.tolist(), desc)
+                ctx.fail('C10:pipeline%s:%s:raised' % (dim, tag), 'observe raised %s: %s' % (st, r), desc)
+                break
+            got = np.array(pipe.matrix, dtype=float).reshape(len(rays), -1)
+            want = []
+            for o, d in rays:
+                ray = Ray(origin=Point3D(*o), direction=Vector3D(*d), min_wavelength=500.0, max_wavelength=501.0, bins=rt.bins)
+                want.append(np.array(ray.trace(world).samples) * (sens if kind == 'power' else 1.0))
+            want = np.array(want)
+            ctx.case(key=('pipe', dim, kind, k, tuple(f2b(v) for v in rays[0][0])) if want.any() else None)
+            if got.shape != want.shape or not np.allclose(got, want, rtol=1e-9, atol=1e-12):
+                ctx.fail('C10:pipeline%s:%s:%s' % (dim, kind, tag),
+                         'observe #%d: matrix %r != spectra traced along the pixel rays %r (x sensitivity %r for power)'
+                         % (k + 1, got.tolist(), want.tolist(), sens), desc)
+                break
+            # a fresh pipeline on the same observer gives the same matrix
+            if k > 0 and rng.random() < 0.5:
+                p2 = fresh()
+                obs.pipelines = [p2]
+                st2, r2 = call(obs.observe)
+                obs.pipelines = [pipe]
+                g2 = np.array(p2.matrix, dtype=float).reshape(len(rays), -1) if st2 == 'ok' else None
+                if g2 is None or g2.shape != got.shape or not np.allclose(g2, got, rtol=1e-12, atol=0.0):
+                    ctx.fail('C10:pipeline%s:%s:differs-from-fresh-pipeline' % (dim, kind), 'reused pipeline %r, fresh pipeline %r' % (got.tolist(), None if g2 is None else g2.tolist()), desc)
+                    break
+        obs.parent = None
 
 
 # ----------------------------------------------------------------------------------------------- corpus / entry points
@@ -1206,6 +1591,8 @@ def replay_one(ctx, r, verbose=False):
     """re-run one recorded direct-call input on the implementation (oracle) and the model"""
     if r.get('kind') == 'e2e':
         return replay_e2e(ctx, r)
+    if r.get('kind') in ('setter-emitter', 'setter-object'):
+        return replay_setter(ctx, r)
     if 'segment' not in r:
         ctx.log('replay: this input class is re-generated from the seed by the streams')
         return
@@ -1265,7 +1652,9 @@ def run(ctx):
     direct_stream(ctx, ctx.n(5000, 60000), cap)
     e2e_stream(ctx, ctx.n(250, 3000), cap)
     period_stream(ctx, ctx.n(400, 5000), cap)
-    pipeline_stream(ctx, ctx.n(8, 60))
+    emission_stream(ctx, ctx.n(1500, 15000))
+    setter_stream(ctx, ctx.n(150, 1500), cap)
+    pipeline_stream(ctx, ctx.n(18, 150))
 
 
 def replay(ctx, path):
@@ -1274,7 +1663,7 @@ def replay(ctx, path):
     print(json.dumps(r, indent=1, default=str)[:3000])
     rp = r.get('replay') or {}
     inp = rp.get('input', rp)
-    if isinstance(inp, dict) and ('segment' in inp or inp.get('kind') == 'e2e') and 'voxel_map' in inp:
+    if isinstance(inp, dict) and ('segment' in inp or inp.get('kind') in ('e2e', 'setter-object')) and 'voxel_map' in inp:
         ctx.rule = 'replay of one recorded input'
         setup_translator(ctx)
         replay_one(ctx, inp, verbose=True)
